@@ -405,7 +405,12 @@ def reader_audit(chk, fx):
             targets.append((DESER, f))
     for name in ('CodeObj::from_pyc', 'CodeObj::from_bytes'):
         targets.append((CODEOBJ, fx.fn(CODEOBJ, name)))
-    targets.append((SER, fx.fn(SER, 'serialize::get_ver_from_magic_num')))
+    # the magic-number look-up(s) the reader itself calls (the panicking get_ver_from_magic_num serves callers that pass a number the compiler chose)
+    fp = fx.fn(CODEOBJ, 'CodeObj::from_pyc')
+    magic_fns = sorted({T.last_seg(T.callee(c) or '') for c in T.calls(fp['body']) if 'ver_from_magic' in (T.callee(c) or '')})
+    chk.need(bool(magic_fns), 'CodeObj::from_pyc no longer maps the magic number to a version')
+    for mf in magic_fns:
+        targets.append((SER, fx.fn(SER, 'serialize::' + mf)))
     n = 0
     for file, f in targets:
         types = fx.file(file)['types']
@@ -435,6 +440,25 @@ def reader_audit(chk, fx):
                 continue
             n += 1
             guarded = any(c[0] == 'if' and ('len()' in T.show(c[1])) for c in ctx)
+            if not guarded and k == 'MCall' and node['n'] in ('remove', 'drain'):
+                # an earlier statement of the function body leaves with an error when the vector is too short for this very request
+                body = T.peel(f['body'])
+                recv = T.show(T.peel(node['r'])).replace(' ', '')
+                need = None
+                if node['n'] == 'remove' and T.lit_int(T.peel(node['a'][0])) == 0:
+                    need = ('%s.is_empty()' % recv, '%s.len()<1' % recv, '%s.len()==0' % recv)
+                elif node['n'] == 'drain':
+                    rng = T.peel(node['a'][0])
+                    flds = {x['n']: T.show(T.peel(x['x'])).replace(' ', '') for x in rng.get('f', [])} if rng.get('k') == 'Struct' else {}
+                    if 'end' in flds and flds.get('start', '0') == '0':
+                        need = ('%s.len()<%s' % (recv, flds['end']), '%s>%s.len()' % (flds['end'], recv))
+                if need and body.get('k') == 'Block':
+                    for st in T.stmts_of(body):
+                        st = T.unsemi(st)
+                        if st.get('l', 0) >= node.get('l', 0):
+                            break
+                        if st.get('k') == 'If' and any(x.get('k') == 'Ret' for x in T.walk(st['t'])) and any(nd in T.show(st['c']).replace(' ', '') for nd in need):
+                            guarded = True
             if guarded:
                 chk.ok('C15-R3', (where, inst))
             else:
